@@ -22,6 +22,14 @@ def parseCause : String → Option CauseKind
   | "innerShutdown" => some .innerShutdown | "innerAbort" => some .innerAbort
   | _ => none
 
+def parseWaiter (s : String) : Option Waiter :=
+  match s.toList with
+  | ['-'] => some .none
+  | ['t'] => some .task
+  | ['s'] => some .support
+  | 'c' :: r => Waiter.cancelled <$> (String.ofList r).toNat?
+  | _ => none
+
 def parseSFault : String → Option SFault
   | "n" => some .none | "w" => some .write | "p" => some .writePop | _ => none
 
@@ -75,14 +83,17 @@ def joinOr (l : List String) : String := if l.isEmpty then "-" else ",".intercal
 def sortStrings (l : List String) : List String := l.mergeSort (fun a b => a ≤ b)
 
 def handle (s : DState) : List String → DState × String
-  | ["reset", ck, before, time, late, wi, ra, sf, tg] =>
+  | ["reset", ck, before, time, late, wi, ra, sf, tg, wt] =>
     match parseCause ck, parseBool before, time.toNat?, parseBool late, parseBool wi, parseBool ra, parseSFault sf,
-      parseOptNat tg with
-    | some ck, some b, some t, some l, some w, some ra, some sf, some tg =>
+      parseOptNat tg, parseWaiter wt with
+    | some ck, some b, some t, some l, some w, some ra, some sf, some tg, some wt =>
       ({ cfg := { cause := { kind := ck, before := b, time := t, late := l, raiseAfter := ra, target := tg },
-                  waitInit := w, storageFault := sf },
+                  waitInit := w, storageFault := sf, waiter := wt },
          res := none }, "ok")
-    | _, _, _, _, _, _, _, _ => (s, "bad-op")
+    | _, _, _, _, _, _, _, _, _ => (s, "bad-op")
+  | ["helperat", t] => match s.res, t.toNat? with
+    | some r, some t => (s, if helperAt r.helperSpan t then "alive" else "gone")
+    | _, _ => (s, "bad-op")
   | ["blk", kind, flags, mf, idur, ito, cdur, sdur, sto, ons] =>
     match parseBlk kind flags mf idur ito cdur sdur sto ons with
     | some b => ({ s with cfg := { s.cfg with blocks := s.cfg.blocks ++ [b] } },
